@@ -94,11 +94,45 @@ Definition in_energy (er : option (Z * Z)) (en : Z) : bool :=
   | Some (lo, hi) => (lo <=? en) && (en <=? hi)
   end.
 
-(* calc_source_signal_mc_event_flux + the weight line of
-   _construct_signal_candidates for one (group, dataset) pair; candidates are
-   ordered source-major, event-minor (np.tile / np.repeat; the source batches
-   are concatenated in order) *)
-Definition cands_for (hi : Z) (h : shgT) (di : Z) (d : dsT) : res (list cand) :=
+(* the candidates one source contributes (one row of the (N_sources, N_events)
+   mask of calc_source_signal_mc_event_flux + the weight line of
+   _construct_signal_candidates): events in index order *)
+Definition src_cands (hi : Z) (h : shgT) (di : Z) (d : dsT) (L U : Z) (ks : Z * (Z * option Z)) : list cand :=
+  let k := fst ks in
+  let x := fst (snd ks) in
+  let wk := match src_weights h with
+            | Some _ => match snd (snd ks) with Some w => w | None => 0 end
+            | None => 1
+            end in
+  flat_map (fun ie : Z * mcev =>
+    let e := snd ie in
+    if in_band x (h_hw h) L U (e_sd e) && in_energy (h_er h) (e_en e)
+    then [ {| c_ds := di; c_ev := fst ie; c_shg := hi; c_src := k;
+              c_wn := e_mw e * h_flux h (e_en e) * wk * d_lt d;
+              c_wd := h_hw h |} ]
+    else [])
+    (enum (d_mc d)).
+
+(* the loop over the source batches: batch bi holds the sources
+   [bi*bs, min((bi+1)*bs, n)), source index = bi*bs + position in the batch *)
+Fixpoint batched_from {A B} (F : Z * A -> list B) (fuel : nat) (bi bs : Z) (l : list A) (n : Z) : list B :=
+  match fuel with
+  | O => []
+  | S f =>
+    let src_start := batch_start bi bs in
+    let src_end := Z.min (batch_end_a bi bs) (batch_end_b n) in
+    let b := batch_bs src_end src_start in
+    let batch := firstn (Z.to_nat b) (skipn (Z.to_nat src_start) l) in
+    flat_map (fun jx : Z * A => F (batch_src_idx bi bs (fst jx), snd jx)) (enum batch)
+    ++ batched_from F f (bi + 1) bs l n
+  end.
+Definition batched {A B} (F : Z * A -> list B) (bs : Z) (l : list A) : list B :=
+  batched_from F (Z.to_nat (batch_n (zlen l) bs)) 0 bs l (zlen l).
+
+(* calc_source_signal_mc_event_flux for one (group, dataset) pair; the
+   candidates are ordered source-major, event-minor (np.tile / np.repeat) *)
+Definition cands_with (srcloop : (Z * (Z * option Z) -> list cand) -> list (Z * option Z) -> list cand)
+           (hi : Z) (h : shgT) (di : Z) (d : dsT) : res (list cand) :=
   match d_mc d with
   | [] => Err ValueError                    (* np.min of an empty array *)
   | e0 :: _ =>
@@ -106,25 +140,15 @@ Definition cands_for (hi : Z) (h : shgT) (di : Z) (d : dsT) : res (list cand) :=
     let L := zmin_l (e_sd e0) sds in
     let U := zmax_l (e_sd e0) sds in
     if (U =? L) || (h_hw h =? 0) then Err ZeroDivision   (* inf / NaN in the float code *)
-    else
-      let sw := src_weights h in
-      Ok (flat_map (fun ks : Z * (Z * option Z) =>
-            let k := fst ks in
-            let x := fst (snd ks) in
-            let wk := match sw with
-                      | Some _ => match snd (snd ks) with Some w => w | None => 0 end
-                      | None => 1
-                      end in
-            flat_map (fun ie : Z * mcev =>
-              let e := snd ie in
-              if in_band x (h_hw h) L U (e_sd e) && in_energy (h_er h) (e_en e)
-              then [ {| c_ds := di; c_ev := fst ie; c_shg := hi; c_src := k;
-                        c_wn := e_mw e * h_flux h (e_en e) * wk * d_lt d;
-                        c_wd := h_hw h |} ]
-              else [])
-              (enum (d_mc d)))
-          (enum (h_src h)))
+    else Ok (srcloop (src_cands hi h di d L U) (h_src h))
   end.
+
+(* all sources at once (= any batch size, theorem batched_eq) *)
+Definition cands_for : Z -> shgT -> Z -> dsT -> res (list cand) :=
+  cands_with (fun F l => flat_map F (enum l)).
+(* as the code does it, with src_batch_size = bs (0: n_sources / 0 raises) *)
+Definition cands_for_b (bs : Z) (hi : Z) (h : shgT) (di : Z) (d : dsT) : res (list cand) :=
+  if bs =? 0 then Err ZeroDivision else cands_with (fun F l => batched F bs l) hi h di d.
 
 (* itertools.product(enumerate(shg_list), enumerate(data_list)) *)
 Fixpoint concatM {A} (l : list (res (list A))) : res (list A) :=
@@ -241,63 +265,171 @@ Section Oracle.
   Definition keep_c (ds shg : Z) (c : cand) : bool := redraw_keep ds shg (c_ds c) (c_shg c).
 
   (* _draw_valid_sig_events_for_dataset_and_shg; the while loop carries fuel *)
-  Fixpoint redraw (fuel : nat) (g : rng) (tbl : list cand) (rngs : list (nat * (Z * Z)))
+  Fixpoint redraw (fuel : nat) (g : rng) (p : list Z) (tbl : list cand) (rngs : list (nat * (Z * Z)))
            (n_signal ds shg : Z) (acc : list (list Z)) : res (list (list Z) * rng) :=
     if redraw_while (zlen acc) n_signal then
       match fuel with
       | O => Err OutOfFuel
       | S f =>
-        let dg := choice g (map c_wn tbl) (Z.to_nat (redraw_size n_signal (zlen acc))) in
+        let dg := choice g p (Z.to_nat (redraw_size n_signal (zlen acc))) in
         do meta <- lookup tbl (fst dg);
         let events := map post_c (filter (keep_c ds shg) meta) in
         do inv <- invalid_mask rngs events;
-        redraw f (snd dg) tbl rngs n_signal ds shg (acc ++ mask_select events (map negb inv))
+        redraw f (snd dg) p tbl rngs n_signal ds shg (acc ++ mask_select events (map negb inv))
       end
     else Ok (acc, g).
 
   (* one (dataset, group) block of generate_signal_events *)
-  Definition gen_group (fuel : nat) (g : rng) (tbl : list cand) (rngs : list (nat * (Z * Z)))
+  Definition gen_group (fuel : nat) (g : rng) (p : list Z) (tbl : list cand) (rngs : list (nat * (Z * Z)))
              (ds shg : Z) (meta : list cand) : res (list (list Z) * rng) :=
     let sel := filter (fun c => gen_ds_shg_mask (gen_ds_mask ds (c_ds c)) (gen_shg_mask shg (c_shg c))) meta in
     let events := map post_c sel in
     do inv <- invalid_mask rngs events;
     let n_redraw := count_true inv in
     if gen_need_redraw n_redraw then
-      do rg <- redraw fuel g tbl rngs n_redraw ds shg [];
+      do rg <- redraw fuel g p tbl rngs n_redraw ds shg [];
       do ev <- fill_mask events inv (fst rg);
       Ok (ev, snd rg)
     else Ok (events, g).
 
-  Fixpoint gen_shgs (fuel : nat) (g : rng) (tbl : list cand) (rngs : list (nat * (Z * Z)))
+  Fixpoint gen_shgs (fuel : nat) (g : rng) (p : list Z) (tbl : list cand) (rngs : list (nat * (Z * Z)))
            (ds : Z) (meta : list cand) (shgs : list Z) : res (list (list Z) * rng) :=
     match shgs with
     | [] => Ok ([], g)
     | shg :: r =>
-      do eg <- gen_group fuel g tbl rngs ds shg meta;
-      do rest <- gen_shgs fuel (snd eg) tbl rngs ds meta r;
+      do eg <- gen_group fuel g p tbl rngs ds shg meta;
+      do rest <- gen_shgs fuel (snd eg) p tbl rngs ds meta r;
       Ok (fst eg ++ fst rest, snd rest)
     end.
 
-  Fixpoint gen_dss (fuel : nat) (g : rng) (tbl : list cand) (dss : list dsT)
+  Fixpoint gen_dss (fuel : nat) (g : rng) (p : list Z) (tbl : list cand) (dss : list dsT)
            (meta : list cand) (dsis : list Z) : res (list (Z * list (list Z)) * rng) :=
     match dsis with
     | [] => Ok ([], g)
     | ds :: r =>
       do d <- py_get dss ds;
       let shgs := zuniq (map c_shg (filter (fun c => gen_ds_mask ds (c_ds c)) meta)) in
-      do eg <- gen_shgs fuel g tbl (d_rng d) ds meta shgs;
-      do rest <- gen_dss fuel (snd eg) tbl dss meta r;
+      do eg <- gen_shgs fuel g p tbl (d_rng d) ds meta shgs;
+      do rest <- gen_dss fuel (snd eg) p tbl dss meta r;
       Ok ((ds, fst eg) :: fst rest, snd rest)
     end.
 
-  (* MCMultiDatasetSignalGenerator.generate_signal_events(poisson=False) *)
-  Definition generate (fuel : nat) (g : rng) (tbl : list cand) (dss : list dsT) (n_signal : Z)
+  (* MCMultiDatasetSignalGenerator.generate_signal_events(poisson=False); p are
+     the probabilities the RandomChoice sampler was built from (see mcgen below) *)
+  Definition generate_p (fuel : nat) (g : rng) (p : list Z) (tbl : list cand) (dss : list dsT) (n_signal : Z)
     : res (Z * list (Z * list (list Z)) * rng) :=
-    let dg := choice g (map c_wn tbl) (Z.to_nat n_signal) in
+    let dg := choice g p (Z.to_nat n_signal) in
     do meta <- lookup tbl (fst dg);
-    do r <- gen_dss fuel (snd dg) tbl dss meta (zuniq (map c_ds meta));
+    do r <- gen_dss fuel (snd dg) p tbl dss meta (zuniq (map c_ds meta));
     Ok (n_signal, fst r, snd r).
+  (* a sampler built from the current table *)
+  Definition generate (fuel : nat) (g : rng) (tbl : list cand) (dss : list dsT) (n_signal : Z) :=
+    generate_p fuel g (map c_wn tbl) tbl dss n_signal.
 End Oracle.
+
+(* ------------------------------------------- poisson switch of the MC generator *)
+Section McPoisson.
+  Variable rng : Type.
+  Variable choice : rng -> list Z -> nat -> list nat * rng.
+  Variable post : Z -> Z -> Z -> Z -> list Z.
+  (* rss.random.poisson(mean): an oracle *)
+  Variable pois : rng -> Z -> Z * rng.
+
+  Definition generate_any (poisson : bool) (fuel : nat) (g : rng) (p : list Z) (tbl : list cand)
+             (dss : list dsT) (mean : Z) :=
+    if mc_poisson_guard poisson
+    then let mg := pois g mean in generate_p rng choice post fuel (snd mg) p tbl dss (fst mg)
+    else generate_p rng choice post fuel g p tbl dss mean.
+
+  (* ---------------------------- the generator object: table + sampler, and its ops *)
+  Record mcgen := { g_shgs : list shgT; g_dss : list dsT; g_tbl : list cand;
+                    g_p : list Z }.     (* the probabilities held by the RandomChoice instance *)
+
+  (* __init__ / _construct_signal_candidates: table, then a new sampler from it *)
+  Definition mc_init (shgs : list shgT) (dss : list dsT) : res mcgen :=
+    do tbl <- construct shgs dss;
+    Ok {| g_shgs := shgs; g_dss := dss; g_tbl := tbl; g_p := map c_wn tbl |}.
+
+  Inductive mcop :=
+  | OpChange (shgs : list shgT)                   (* change_shg_mgr *)
+  | OpGenerate (poisson : bool) (mean : Z).       (* generate_signal_events *)
+
+  (* a raising change_shg_mgr leaves the object half rebuilt: the history ends *)
+  Definition mc_step (fuel : nat) (st : mcgen) (g : rng) (op : mcop)
+    : res (mcgen * rng * option (Z * list (Z * list (list Z)))) :=
+    match op with
+    | OpChange shgs => do st' <- mc_init shgs (g_dss st); Ok (st', g, None)
+    | OpGenerate poisson mean =>
+      do r <- generate_any poisson fuel g (g_p st) (g_tbl st) (g_dss st) mean;
+      Ok (st, snd r, Some (fst r))
+    end.
+
+  Fixpoint mc_run (fuel : nat) (st : mcgen) (g : rng) (ops : list mcop)
+    : res (mcgen * rng * list (Z * list (Z * list (list Z)))) :=
+    match ops with
+    | [] => Ok (st, g, [])
+    | op :: r =>
+      do x <- mc_step fuel st g op;
+      do y <- mc_run fuel (fst (fst x)) (snd (fst x)) r;
+      Ok (fst (fst y), snd (fst y),
+          match snd x with Some o => o :: snd y | None => snd y end)
+    end.
+End McPoisson.
+
+(* ----------------------------- signal_event_post_sampling_processing: the loop *)
+Section PostProc.
+  Variables (S E : Type).
+  Variable rot : S -> E -> E.       (* rotate_signal_events_on_sphere + field update, per event *)
+
+  (* shg_sig_events[shg_src_mask] = rotated(shg_sig_events[shg_src_mask]) *)
+  Definition pp_apply (k : Z) (s : S) (meta : list Z) (evs : list E) : list E :=
+    map2 (fun m e => if post_src_mask k m then rot s e else e) meta evs.
+
+  Fixpoint pp_loop (srcs : list S) (ks : list Z) (meta : list Z) (evs : list E) : res (list E) :=
+    match ks with
+    | [] => Ok evs
+    | k :: r =>
+      do s <- py_get srcs (post_source_idx0 k);     (* shg.source_list[shg_src_idx] *)
+      pp_loop srcs r meta (pp_apply k s meta evs)
+    end.
+
+  Definition post_process (srcs : list S) (meta : list Z) (evs : list E) : res (list E) :=
+    if negb (Nat.eqb (length meta) (length evs)) then Err IndexError   (* boolean mask of another length *)
+    else pp_loop srcs (zuniq meta) meta evs.
+End PostProc.
+
+(* --------------------- MultiDatasetSignalGenerator.generate_signal_events, whole *)
+Section Multi.
+  Variable rng : Type.
+  Variable choice : rng -> list Z -> nat -> list nat * rng.
+  Variable pois : rng -> Z -> Z * rng.
+  Variable E : Type.
+  (* the j-th per-dataset generator called with poisson=False: (n, dict, state) *)
+  Variable subgen : nat -> rng -> Z -> res (Z * list (Z * list E) * rng).
+
+  Definition dict := list (Z * list E).
+
+  (* if k not in d: d[k] = v  else: d[k].append(v) *)
+  Definition dict_add (d : dict) (k : Z) (v : list E) : dict :=
+    if md_new_key k (map fst d) then d ++ [(k, v)]
+    else map (fun kv => if fst kv =? k then (fst kv, snd kv ++ v) else kv) d.
+
+  Definition dict_merge (d dj : dict) : dict :=
+    fold_left (fun acc kv => dict_add acc (fst kv) (snd kv)) dj d.
+
+  Fixpoint md_loop (j : nat) (cnts : list Z) (g : rng) (n : Z) (d : dict) : res (Z * dict * rng) :=
+    match cnts with
+    | [] => Ok (n, d, g)
+    | c :: r =>
+      do x <- subgen j g c;
+      md_loop (S j) r (snd x) (md_n_acc n (fst (fst x))) (dict_merge d (snd (fst x)))
+    end.
+
+  Definition md_generate (poisson : bool) (g : rng) (mean D : Z) (ws : list Z) : res (Z * dict * rng) :=
+    let mg := if md_poisson_guard poisson then pois g mean else (mean, g) in
+    do cg <- ds_counts rng choice (snd mg) (fst mg) D ws;
+    md_loop 0 (fst cg) (snd cg) 0 [].
+End Multi.
 
 (* the oracle used to *run* the model: the generator state is the list of the
    index batches still to be handed out *)
